@@ -413,6 +413,23 @@ def cv_worker(job):
                             'headers': {s: h for s, h in r2.fasta.items()},
                             'line_A': spec_line(tx, kw2, canon2, dict(idmap), resolve_exc(kw2)),
                             'canon_gained': sorted(canon2 - canon)})
+            elif name == 'cno':
+                # --coding-novel-orf on a coding transcript: every ATG of every frame may open an
+                # ORF on top of the known one
+                if not tx['coding']:
+                    continue
+                kw2 = dict(kw, coding_novel_orf=True)
+                r2 = gen_ref.run_call_variant(case, tag='v', **kw2)
+                # soundness side: the definition with every ATG allowed, over the records the
+                # coding graph can carry (those behind the known start codon)
+                s0 = tx['orf'][0] + 3
+                tx2 = dict(tx, coding=False, orf=None,
+                           vars=[v_ for v_ in tx['vars'] if v_[0] >= s0 or (v_[0] == s0 - 1 and v_[4] == 'INDEL')])
+                var.append({'name': 'cno', 'relation': 'superset', 'status': r2.status,
+                            'what': {'coding_novel_orf': True}, 'kw2': kw2,
+                            'real': sorted(r2.fasta.keys()),
+                            'headers': {s: h for s, h in r2.fasta.items()},
+                            'line_A': spec_line(tx2, kw, canon, dict(idmap), exc)})
             elif name == 'addvar':
                 if len(recs) < 2:
                     continue
